@@ -1251,7 +1251,11 @@ def rule_top_namespace_filter(ctx, rep: Report, rid="A3"):
     a_, b_ = func_params(pm)[1:3]
     samples = [([""], ["", "g"], True), (["", "g"], ["", "g"], True), (["", "h"], ["", "g"], False), (["", "g", "x"], ["", "g"], True),
                (["", "h", "x"], ["", "g"], False), (["", "g"], [""], True), (["x"], ["", "g"], False), (["", "g", "x"], ["", "g", "y"], False),
-               (["", "g", "x"], ["", "g", "x", "z"], True), ([], ["", "g"], True)]
+               (["", "g", "x"], ["", "g", "x", "z"], True), ([], ["", "g"], True),
+               # components are compared whole: `gt` is not on the way to `gtsam`, `a::bc` is not `a::b` + `c`, and a separator inside
+               # a joined text does not make `a`, `b::c` equal to `a::b`, `c`
+               (["", "gt"], ["", "gtsam"], False), (["", "gtsam"], ["", "gt"], False), (["", "g", "xy"], ["", "g", "x"], False),
+               (["", "g", "x"], ["", "g", "xy", "z"], False), (["", "g::x"], ["", "g", "x"], False), (["", "gx"], ["", "g", "x"], False)]
     try:
         wrong = [(x, y) for x, y, w in samples if bool(mini_exec(pm, {"self": None, a_: x, b_: y})) != w]
         ok2 = not wrong
